@@ -94,34 +94,90 @@ def rule_b(ctx, ix):
     for q, di in EXPORTERS:
         f = ix.func(q)
         data_p = f.params[di]
-        # mask = data.to_mask() under isinstance(data, Subset); data = data.data afterwards
-        ifs = [n for n in body_stmts(f.node) if isinstance(n, ast.If) and 'isinstance(%s, Subset)' % data_p in unparse(n.test)]
-        if len(ifs) != 1:
-            raise AnalysisError('%s: subset test not recognised' % f.construct)
-        t = ifs[0]
-        a = {unparse(st.targets[0]): unparse(st.value) for st in t.body if isinstance(st, ast.Assign)}
-        order = [unparse(st.targets[0]) for st in t.body if isinstance(st, ast.Assign)]
-        ok = a.get('mask') == '%s.to_mask()' % data_p and a.get(data_p) == '%s.data' % data_p and order.index('mask') < order.index(data_p)
-        ctx.ob(R, f.construct + ' mask', 'the mask is the subset\'s own mask, taken before the subset is replaced by its dataset', ok,
-               detail='%s prepares the subset export with %s' % (f.construct, a), where=where(f, t))
-        e = {unparse(st.targets[0]): unparse(st.value) for st in t.orelse if isinstance(st, ast.Assign)}
-        ctx.ob(R, f.construct + ' no mask', 'a whole dataset is exported without a mask', e.get('mask') == 'None',
-               detail='%s sets mask to %s for a whole dataset' % (f.construct, e.get('mask')), where=where(f, t), nontrivial=False)
-        lp = _loop(f, data_p)
-        # every path that writes a column has applied the mask when there is one
-        uses = [n for n in ast.walk(lp) if isinstance(n, ast.If) and unparse(n.test).replace(' ', '') == 'maskisnotNone']
-        ctx.ob(R, f.construct + ' applied', 'inside the component loop the mask is applied when present', len(uses) >= 1,
-               detail='%s never applies the subset mask to the exported values: the whole dataset is written for a subset' % f.construct,
-               where=where(f, lp))
-        if uses:
-            idx = [n for u in uses for n in ast.walk(u) if isinstance(n, ast.Subscript) and
-                   unparse(n.slice).replace(' ', '') in ('mask', '~mask')]
-            ctx.ob(R, f.construct + ' indexed', 'the values are indexed / masked with that mask', bool(idx),
-                   detail='under `mask is not None` %s does not index the values with the mask' % f.construct, where=where(f, uses[0]))
+        # dataflow: IN = the exporter's argument; on the branch where it is a Subset: SUB; X.to_mask() of SUB = MASK (of anything
+        # else = BADMASK); X.data of SUB = PARENT; None = NONE.  At the component loop the mask variable must hold MASK (subset)
+        # or NONE (whole dataset), and the dataset variable PARENT or the argument itself.
+        from .. import cond
+        from ..util import expand_locals
+
+        def classify(expr, state, data_p=data_p):
+            if isinstance(expr, ast.Name):
+                return set(state.get(expr.id, ()))
+            if isinstance(expr, ast.Constant) and expr.value is None:
+                return {'NONE'}
+            if isinstance(expr, ast.Call) and isinstance(expr.func, ast.Attribute) and expr.func.attr == 'to_mask':
+                src = classify(expr.func.value, state)
+                return {'MASK'} if src and src <= {'SUB'} else ({'BADMASK'} if src else {'BADMASK'})
+            if isinstance(expr, ast.Attribute) and expr.attr == 'data':
+                src = classify(expr.value, state)
+                if src and src <= {'SUB'}:
+                    return {'PARENT'}
+                return {'OTHERDATA'} if src else set()
+            if isinstance(expr, ast.IfExp):
+                return classify(expr.body, refine(expr.test, state, True)) | classify(expr.orelse, refine(expr.test, state, False))
+            return set()
+
+        def refine(test, state, branch, data_p=data_p):
+            f_ = cond.formula(test)
+            key = 'isinstance(%s,Subset)' % data_p
+            st2 = dict(state)
+            try:
+                if cond.equivalent(f_, cond.T(key)):
+                    pos = True
+                elif cond.equivalent(f_, cond.Not(cond.T(key))):
+                    pos = False
+                else:
+                    return state
+            except ValueError:
+                return state
+            for k, v in state.items():
+                if 'IN' in v:
+                    st2[k] = frozenset((set(v) - {'IN'}) | ({'SUB'} if branch == pos else {'DS'}))
+            return st2
+        at_loop = {}
+
+        def on_stmt0(st, state):
+            if st is lp0:
+                at_loop.update(state)
+        lp0 = _loop(f, data_p)
+        fl0 = Flow(classify, on_stmt=on_stmt0, refine=refine)
+        fl0.run(f.node, {data_p: frozenset(['IN'])})
+        if not at_loop:
+            raise AnalysisError('%s: the component loop is not reached by the dataflow' % f.construct)
+        masks = sorted(k for k, v in at_loop.items() if 'MASK' in v or 'BADMASK' in v)
+        ok = len(masks) == 1 and set(at_loop[masks[0]]) - {'<undef>'} == {'MASK', 'NONE'} if masks else False
+        dtags = set(at_loop.get(data_p, ())) - {'<undef>'}
+        ok = ok and dtags and dtags <= {'PARENT', 'DS'} and 'PARENT' in dtags
+        ctx.ob(R, f.construct + ' mask', 'the mask is the subset\'s own mask, taken before the subset is replaced by its dataset', bool(ok),
+               detail='%s prepares the subset export so that at the component loop the mask variable(s) hold %s and `%s` holds %s '
+                      '(expected: the mask of the subset itself or None; the parent dataset or the dataset given)'
+                      % (f.construct, {m: sorted(at_loop[m]) for m in masks}, data_p, sorted(dtags)), where=where(f, lp0))
+        mask_v = masks[0] if masks else 'mask'
+        ctx.ob(R, f.construct + ' no mask', 'a whole dataset is exported without a mask', bool(masks) and 'NONE' in at_loop[mask_v],
+               detail='%s does not set the mask to None for a whole dataset' % f.construct, where=where(f, lp0), nontrivial=False)
+        lp = lp0
+        # every path that writes a column has applied the mask when there is one: an indexing with the mask that runs exactly
+        # when the mask is present (the test may be written through a local flag)
+        present = cond.Not(cond.T('is|%s|%s' % tuple(sorted(('None', mask_v)))))
+        idx = [n for n in ast.walk(lp) if isinstance(n, ast.Subscript) and unparse(n.slice).replace(' ', '') in (mask_v, '~' + mask_v)]
+        applied = []
+        for n in idx:
+            pc = cond.restrict(cond.expr_condition(f.node, n), lambda a: a in cond.atoms(present))
+            try:
+                if cond.equivalent(pc, present):
+                    applied.append(n)
+            except ValueError:
+                pass
+        ctx.ob(R, f.construct + ' applied', 'inside the component loop the mask is applied when present', bool(applied),
+               detail='%s never applies the subset mask to the exported values (no indexing with `%s` that runs exactly when the mask is '
+                      'present): the whole dataset is written for a subset' % (f.construct, mask_v), where=where(f, lp))
+        if applied:
+            ctx.ob(R, f.construct + ' indexed', 'the values are indexed / masked with that mask', True)
             # the write must come after the masking, in the same iteration
             sinks = [n for n in ast.walk(lp) if (isinstance(n, ast.Call) and call_name(n) in SINKS) or
                      (isinstance(n, ast.Assign) and isinstance(n.targets[0], ast.Subscript) and '.label' in unparse(n.targets[0].slice))]
-            ok = bool(sinks) and all(s.lineno > uses[0].lineno for s in sinks)
+            first = min(n.lineno for n in applied)
+            ok = bool(sinks) and all(s_.lineno > first for s_ in sinks)
             ctx.ob(R, f.construct + ' order', 'the column is written after the mask was applied', ok,
                    detail='%s writes the column before applying the mask' % f.construct, where=where(f, lp))
         # fresh-before-mutate: in-place masking only on copies
@@ -139,7 +195,7 @@ def rule_b(ctx, ix):
             if isinstance(expr, ast.Subscript):
                 base = classify(expr.value, state)
                 # boolean-mask indexing copies
-                if unparse(expr.slice).replace(' ', '') in ('mask',):
+                if unparse(expr.slice).replace(' ', '') in ('mask', mask_v):
                     return {'fresh'}
                 return base
             return {'fresh'} if isinstance(expr, (ast.BinOp, ast.Compare, ast.UnaryOp)) else {'unknown'}
